@@ -81,7 +81,7 @@ def run_check(prop, tier):
     for idx, run in enumerate(runs):
         hname = run["harness"]
         h = HARNESSES[hname]
-        exe = fmcbuild.build_harness(hname, h["kind"], libdir, extra_wraps=h.get("wraps", ()), lib_objs=h.get("objs"))
+        exe = fmcbuild.build_harness(h.get("src", hname), h["kind"], libdir, extra_wraps=h.get("wraps", ()), lib_objs=h.get("objs"), defs=h.get("defs", ()), extra_srcs=h.get("extra_srcs", ()), link_flags=h.get("link_flags", ()), variant=h.get("variant", ""))
         label = "%s-%d" % (hname, idx)
         remaining = budget - (time.time() - t0)
         per = max(5.0, remaining)  # a run may use whatever is left of the check's budget
@@ -197,7 +197,7 @@ def replay(path, verbose):
         return 2
     h = HARNESSES[hname]
     libdir = fmcbuild.build_lib()
-    exe = fmcbuild.build_harness(hname, h["kind"], libdir, extra_wraps=h.get("wraps", ()), lib_objs=h.get("objs"))
+    exe = fmcbuild.build_harness(h.get("src", hname), h["kind"], libdir, extra_wraps=h.get("wraps", ()), lib_objs=h.get("objs"), defs=h.get("defs", ()), extra_srcs=h.get("extra_srcs", ()), link_flags=h.get("link_flags", ()), variant=h.get("variant", ""))
     args = [a for a in info.get("args", "").split() if a.startswith("-D") or a.startswith("-S") or a.startswith("-horizon") or a.startswith("-L")]
     cmd = [exe] + args + ["-replay=" + path] + (["-v"] if verbose else [])
     r = subprocess.run(cmd, stdout=subprocess.PIPE, stderr=subprocess.STDOUT, text=True)
@@ -216,7 +216,7 @@ def main():
     if sys.argv[1] == "build":
         libdir = fmcbuild.build_lib()
         for hname, h in sorted(HARNESSES.items()):
-            fmcbuild.build_harness(hname, h["kind"], libdir, extra_wraps=h.get("wraps", ()), lib_objs=h.get("objs"))
+            fmcbuild.build_harness(h.get("src", hname), h["kind"], libdir, extra_wraps=h.get("wraps", ()), lib_objs=h.get("objs"), defs=h.get("defs", ()), extra_srcs=h.get("extra_srcs", ()), link_flags=h.get("link_flags", ()), variant=h.get("variant", ""))
         print("built %d harnesses in %s" % (len(HARNESSES), libdir))
         return 0
     if sys.argv[1] == "check":
